@@ -378,6 +378,43 @@ func extractFire(c *core.Ctx, a *Anchors, f *core.Func) *firePred {
 		if core.NamedName(p.Type()) == "EventType" {
 			pc.evtParam = p
 		}
+		// a parameter that carries the event (its type and its mask) as fields: locals defined from those fields stand
+		// for the mask / event-type parameters, in the position of the carrying parameter
+		if core.NamedName(p.Type()) == "Event" {
+			core.InspectNoLits(f.Body, func(n ast.Node) bool {
+				as, ok := n.(*ast.AssignStmt)
+				if !ok || len(as.Lhs) != len(as.Rhs) {
+					return true
+				}
+				for j, l := range as.Lhs {
+					id, ok := l.(*ast.Ident)
+					if !ok {
+						continue
+					}
+					lv, ok := m.Info.ObjectOf(id).(*types.Var)
+					if !ok || len(localDefsOf(m, f, lv)) != 1 {
+						continue
+					}
+					r := ast.Unparen(as.Rhs[j])
+					if u, ok := r.(*ast.UnaryExpr); ok && u.Op == token.AND {
+						r = ast.Unparen(u.X)
+					}
+					sel, ok := r.(*ast.SelectorExpr)
+					if !ok || !isIdentOf(m, sel.X, p) {
+						continue
+					}
+					switch {
+					case isMaskPtr(lv.Type()):
+						pc.maskPars[lv] = fmt.Sprintf("P%d", fp.masks)
+						fp.masks++
+					case core.NamedName(lv.Type()) == "EventType":
+						pc.evtParam = lv
+						fp.events["custom"] = true // the event type of an Event value is a user-defined one
+					}
+				}
+				return true
+			})
+		}
 	}
 	// locate the loop over observers (anywhere in the body): it ranges over m.observers[E] or a local defined from it
 	var loop *ast.RangeStmt
@@ -784,6 +821,32 @@ func c08r1r2(c *core.Ctx) {
 						preds[fc.Fire].events[fc.Event] = true
 					}
 				}
+				// the event type is a parameter of the enclosing helper: take it from the helper's call sites
+				if fc := a.FireCallOf(g, call); fc != nil && fc.Forward {
+					if pi := eventParamIndex(fc.Callee); pi >= 0 && pi < len(call.Args) && !a.Fire[g] {
+						if _, isWrapper := a.fireWrappers()[g]; !isWrapper {
+							if id, ok := ast.Unparen(call.Args[pi]).(*ast.Ident); ok {
+								if v, ok := m.Info.ObjectOf(id).(*types.Var); ok {
+									if gi, isP := paramIndexOf(g, v); isP {
+										for _, cs := range m.CallSites() {
+											if cs.Callee == g && gi < len(cs.Call.Args) {
+												if ev := eventConstName(m, cs.Call.Args[gi]); ev != "" {
+													if preEvents[ev] || postEvents[ev] {
+														preds[fc.Fire].events[ev] = true
+													} else {
+														preds[fc.Fire].events["custom"] = true
+													}
+												} else {
+													preds[fc.Fire].events["custom"] = true
+												}
+											}
+										}
+									}
+								}
+							}
+						}
+					}
+				}
 			}
 			return true
 		})
@@ -946,61 +1009,186 @@ func c08r3(c *core.Ctx) {
 		}
 		return ""
 	}
-	// (a) every mask.Set in a loop is paired with its flag in the same loop body; (b) routing per event family
-	var lastWithSet, exclusiveNot token.Pos
-	core.InspectNoLits(reg.Body, func(n ast.Node) bool {
-		rs, ok := n.(*ast.RangeStmt)
-		if !ok {
-			return true
+	// Route facts: which source list (Observer.comps / with / without) is folded into which mask, together with which
+	// guard flag. A fact comes from a loop over the source in the registering function, or from a call of a helper that
+	// loops over its list parameter, sets the bits in its mask parameter and the flag through its flag parameter.
+	type routeFact struct {
+		src, mask, flag string
+		node            ast.Node
+	}
+	var facts []routeFact
+	isSetOn := func(call *ast.CallExpr) ast.Expr {
+		// the mask method that sets one bit: one argument, stores into the receiver
+		sel, ok := ast.Unparen(call.Fun).(*ast.SelectorExpr)
+		if !ok || len(call.Args) != 1 {
+			return nil
 		}
-		src := fieldOfSel(rs.X) // Observer.comps / with / without
-		sets := map[string]bool{}
-		flags := map[string]bool{}
-		ast.Inspect(rs.Body, func(x ast.Node) bool {
-			switch y := x.(type) {
-			case *ast.CallExpr:
-				if sel, ok := ast.Unparen(y.Fun).(*ast.SelectorExpr); ok && sel.Sel.Name == "Set" {
-					if k := fieldOfSel(sel.X); maskFlag[k] != "" {
-						sets[k] = true
-						if k == "observerData.withMask" && y.Pos() > lastWithSet {
-							lastWithSet = y.Pos()
+		k, cal, _ := m.Callee(call)
+		if k != core.CallStatic || (cal.Recv != "bitMask256" && cal.Recv != "bitMask64") || cal.Sig.Results().Len() != 0 || len(c.Eff.Stores(cal)) == 0 {
+			return nil
+		}
+		if isMaskPtr(cal.Sig.Params().At(0).Type()) {
+			return nil // OrI and friends take a mask
+		}
+		return sel.X
+	}
+	unref := func(e ast.Expr) ast.Expr {
+		e = ast.Unparen(e)
+		if u, ok := e.(*ast.UnaryExpr); ok && u.Op == token.AND {
+			return ast.Unparen(u.X)
+		}
+		if st, ok := e.(*ast.StarExpr); ok {
+			return ast.Unparen(st.X)
+		}
+		return e
+	}
+	// helper summaries: (list param, mask param, flag param)
+	type routeSum struct{ list, mask, flag int }
+	sums := map[*core.Func]*routeSum{}
+	for _, h := range m.Funcs {
+		if h == reg || h.Sig == nil || h.Body == nil {
+			continue
+		}
+		var rs *routeSum
+		core.InspectNoLits(h.Body, func(n ast.Node) bool {
+			loop, ok := n.(*ast.RangeStmt)
+			if !ok {
+				return true
+			}
+			lv, _ := m.Info.ObjectOf(identOf(loop.X)).(*types.Var)
+			li, isP := -2, false
+			if lv != nil {
+				li, isP = paramIndexOf(h, lv)
+			}
+			if !isP {
+				return true
+			}
+			mi, fi := -1, -1
+			ast.Inspect(loop.Body, func(x ast.Node) bool {
+				switch y := x.(type) {
+				case *ast.CallExpr:
+					if recv := isSetOn(y); recv != nil {
+						if pv, _ := m.Info.ObjectOf(identOf(recv)).(*types.Var); pv != nil {
+							if i, ok := paramIndexOf(h, pv); ok {
+								mi = i
+							}
+						}
+					}
+				case *ast.AssignStmt:
+					for i, l := range y.Lhs {
+						if i < len(y.Rhs) {
+							if tv, ok := m.Info.Types[y.Rhs[i]]; ok && tv.Value != nil && tv.Value.String() == "true" {
+								if pv, _ := m.Info.ObjectOf(identOf(unref(l))).(*types.Var); pv != nil {
+									if j, ok := paramIndexOf(h, pv); ok {
+										fi = j
+									}
+								}
+							}
 						}
 					}
 				}
-			case *ast.AssignStmt:
-				for i, l := range y.Lhs {
-					if k := fieldOfSel(l); strings.HasPrefix(k, "observerData.has") && i < len(y.Rhs) {
-						if tv, ok := m.Info.Types[y.Rhs[i]]; ok && tv.Value != nil && tv.Value.String() == "true" {
-							flags[k] = true
-						}
-					}
-				}
+				return true
+			})
+			if mi >= 0 {
+				rs = &routeSum{li, mi, fi}
 			}
 			return true
 		})
-		if len(sets) == 0 {
-			return true
+		if rs != nil {
+			sums[h] = rs
 		}
-		for mk := range sets {
-			subject := fmt.Sprintf("%s: loop over %s sets %s", reg.Name, src, mk)
-			if flags[maskFlag[mk]] {
-				c.OK("C08/R3", subject, c.At(rs.Pos()), "guard flag set together with the mask bits")
-			} else {
-				c.Violation("C08/R3", subject, c.At(rs.Pos()), fmt.Sprintf("%s: bits are set in %s without setting %s in the same loop; dispatch would ignore the condition", reg.Name, mk, maskFlag[mk]))
+	}
+	core.InspectNoLits(reg.Body, func(n ast.Node) bool {
+		switch x := n.(type) {
+		case *ast.RangeStmt:
+			src := fieldOfSel(x.X)
+			if src == "" {
+				return true
 			}
-		}
-		// routing: which source goes to which mask
-		want := map[string]string{"Observer.with": "observerData.withMask", "Observer.without": "observerData.withoutMask"}
-		if w, ok := want[src]; ok {
-			subject := fmt.Sprintf("%s: %s routed", reg.Name, src)
-			if len(sets) == 1 && sets[w] {
-				c.OK("C08/R3", subject, c.At(rs.Pos()), src+" components go to "+w)
-			} else {
-				c.Violation("C08/R3", subject, c.At(rs.Pos()), fmt.Sprintf("%s: %s components are not routed (only) into %s", reg.Name, src, w))
+			sets := map[string]bool{}
+			flags := map[string]bool{}
+			ast.Inspect(x.Body, func(y ast.Node) bool {
+				switch z := y.(type) {
+				case *ast.CallExpr:
+					if recv := isSetOn(z); recv != nil {
+						if k := fieldOfSel(recv); maskFlag[k] != "" {
+							sets[k] = true
+						}
+					}
+				case *ast.AssignStmt:
+					for i, l := range z.Lhs {
+						if k := fieldOfSel(l); k != "" && i < len(z.Rhs) {
+							if tv, ok := m.Info.Types[z.Rhs[i]]; ok && tv.Value != nil && tv.Value.String() == "true" {
+								flags[k] = true
+							}
+						}
+					}
+				}
+				return true
+			})
+			for mk := range sets {
+				fl := ""
+				if flags[maskFlag[mk]] {
+					fl = maskFlag[mk]
+				}
+				facts = append(facts, routeFact{src, mk, fl, x})
+			}
+		case *ast.CallExpr:
+			if k, cal, _ := m.Callee(x); k == core.CallStatic && sums[cal] != nil {
+				rs := sums[cal]
+				if rs.list < len(x.Args) && rs.mask < len(x.Args) {
+					src := fieldOfSel(x.Args[rs.list])
+					mk := fieldOfSel(unref(x.Args[rs.mask]))
+					fl := ""
+					if rs.flag >= 0 && rs.flag < len(x.Args) {
+						fl = fieldOfSel(unref(x.Args[rs.flag]))
+					}
+					if src != "" && maskFlag[mk] != "" {
+						facts = append(facts, routeFact{src, mk, fl, x})
+					}
+				}
 			}
 		}
 		return true
 	})
+	var lastWithSet, exclusiveNot token.Pos
+	for _, ft := range facts {
+		if ft.mask == "observerData.withMask" && ft.node.Pos() > lastWithSet {
+			lastWithSet = ft.node.Pos()
+		}
+		subject := fmt.Sprintf("%s: %s folded into %s", reg.Name, ft.src, ft.mask)
+		if ft.flag == maskFlag[ft.mask] {
+			c.OK("C08/R3", subject, c.At(ft.node.Pos()), "guard flag set together with the mask bits")
+		} else {
+			c.Violation("C08/R3", subject, c.At(ft.node.Pos()), fmt.Sprintf("%s: bits are set in %s without setting %s along with them; dispatch would ignore the condition", reg.Name, ft.mask, maskFlag[ft.mask]))
+		}
+	}
+	// routing: which source goes to which mask
+	for src, w := range map[string]string{"Observer.with": "observerData.withMask", "Observer.without": "observerData.withoutMask"} {
+		var got []string
+		var at ast.Node
+		for _, ft := range facts {
+			if ft.src == src {
+				got = append(got, ft.mask)
+				at = ft.node
+			}
+		}
+		if at == nil {
+			continue
+		}
+		subject := fmt.Sprintf("%s: %s routed", reg.Name, src)
+		okRoute := true
+		for _, g := range got {
+			if g != w {
+				okRoute = false
+			}
+		}
+		if okRoute {
+			c.OK("C08/R3", subject, c.At(at.Pos()), src+" components go to "+w)
+		} else {
+			c.Violation("C08/R3", subject, c.At(at.Pos()), fmt.Sprintf("%s: %s components are not routed (only) into %s (found %v)", reg.Name, src, w, got))
+		}
+	}
 	// routing of observed components (Observer.comps) by event family: inside a switch over the event
 	core.InspectNoLits(reg.Body, func(n ast.Node) bool {
 		sw, ok := n.(*ast.SwitchStmt)
@@ -1020,17 +1208,10 @@ func c08r3(c *core.Ctx) {
 				}
 			}
 			target := ""
-			for _, st := range clause.Body {
-				ast.Inspect(st, func(x ast.Node) bool {
-					if call, ok := x.(*ast.CallExpr); ok {
-						if sel, ok := ast.Unparen(call.Fun).(*ast.SelectorExpr); ok && sel.Sel.Name == "Set" {
-							if k := fieldOfSel(sel.X); maskFlag[k] != "" {
-								target = k
-							}
-						}
-					}
-					return true
-				})
+			for _, ft := range facts {
+				if ft.src == "Observer.comps" && clause.Pos() <= ft.node.Pos() && ft.node.End() <= clause.End() {
+					target = ft.mask
+				}
 			}
 			name := strings.Join(evs, ",")
 			if clause.List == nil {
@@ -1120,6 +1301,15 @@ func c08r3(c *core.Ctx) {
 			c.Violation("C08/R3", subject, c.At(reg.Pos()), fmt.Sprintf("%s: registration does not fold %s into %s (or set %s for observers without it); early-outs would skip this observer", reg.Name, pair[2], pair[1], pair[3]))
 		}
 	}
+}
+
+// identOf returns the identifier that e is after removing parentheses, or nil.
+func identOf(e ast.Expr) *ast.Ident {
+	if e == nil {
+		return nil
+	}
+	id, _ := ast.Unparen(e).(*ast.Ident)
+	return id
 }
 
 // c08r4: aggregate recomputation when an observer is removed.
@@ -1529,10 +1719,19 @@ func c08r6(c *core.Ctx) {
 								if hp := relParamAny(cal); hp != nil {
 									rp = hp
 								}
+								callerF := f
+								if inlineF != nil {
+									callerF = inlineF
+								}
 								for ai, arg := range call.Args {
 									if ai < cal.Sig.Params().Len() {
 										if tv, ok := m.Info.Types[arg]; ok && tv.Value != nil && tv.Value.Kind() == constant.Bool {
 											constBind[cal.Sig.Params().At(ai)] = constant.BoolVal(tv.Value)
+										} else if isBool(cal.Sig.Params().At(ai).Type()) {
+											r6ArgBind[cal.Sig.Params().At(ai)] = struct {
+												e ast.Expr
+												f *core.Func
+											}{arg, callerF}
 										}
 									}
 								}
@@ -1764,6 +1963,14 @@ func inputGuard(m *core.Model, f *core.Func, cond ast.Expr, want bool, rp *types
 			}
 		case *ast.Ident:
 			if v, ok := m.Info.ObjectOf(x).(*types.Var); ok && !v.IsField() {
+				// a parameter of an inlined emission helper: the condition is the argument, in the caller's terms
+				if b, bound := r6ArgBind[v]; bound {
+					saved := f
+					f = b.f
+					visit(b.e, want, depth+1)
+					f = saved
+					return
+				}
 				if ds := localDefsOf(m, f, v); len(ds) == 1 {
 					visit(ds[0], want, depth+1)
 				}
@@ -1773,6 +1980,13 @@ func inputGuard(m *core.Model, f *core.Func, cond ast.Expr, want bool, rp *types
 	visit(cond, want, 0)
 	return out
 }
+
+// r6ArgBind binds the parameters of emission helpers that C08/R6 is currently inlining to the argument expressions
+// (and the function they are written in).
+var r6ArgBind = map[*types.Var]struct {
+	e ast.Expr
+	f *core.Func
+}{}
 
 // c08r7: the relation change mask marks exactly the relations whose target changes.
 func c08r7(c *core.Ctx) {
@@ -1789,7 +2003,14 @@ func c08r7(c *core.Ctx) {
 				maskPar = f.Sig.Params().At(i)
 			}
 		}
-		if maskPar == nil || f.Sig.Results().Len() == 0 || !isBool(f.Sig.Results().At(f.Sig.Results().Len()-1).Type()) {
+		// (the "changed" result may be at any position)
+		hasBoolResult := false
+		for i := 0; i < f.Sig.Results().Len(); i++ {
+			if isBool(f.Sig.Results().At(i).Type()) {
+				hasBoolResult = true
+			}
+		}
+		if maskPar == nil || !hasBoolResult {
 			continue
 		}
 		var loops []*ast.RangeStmt
